@@ -48,6 +48,9 @@ def _wrap_ids(ids, how):
     if how == 'name':
         T = namedtuple('ObjWithName', 'name')
         return [T(i) for i in ids], (lambda objs: [o.name for o in objs])
+    if how == 'both':                    # objects with an id AND a (different, encodable) name: the id is the identifier
+        TB = namedtuple('ObjWithIdAndName', 'id name')          # (seed C18-14: a falsy id must not fall back to the name)
+        return [TB(i, 'zqdecoy_31') for i in ids], (lambda objs: [o.id for o in objs])
     if how == 'mixed':                   # one list mixing str, objects with .id, objects with .name
         TI, TN = namedtuple('ObjWithId', 'id'), namedtuple('ObjWithName', 'name')
         objs = [(i, TI(i), TN(i))[k % 3] for k, i in enumerate(ids)]
@@ -572,6 +575,13 @@ def _random_range_case(rnd, cid, canonical_only=False, delim=None):
     if rnd.random() < 0.2:                     # one list mixing str / .id / .name elements
         calls = [dict(c, **{'as': 'mixed'}) for c in calls]
         cls.add('carrier:mixed')
+    elif rnd.random() < 0.2:                   # objects carrying both an id and a decoy name, sometimes with an empty id
+        calls = [dict(c, **{'as': 'both'}) for c in calls]
+        cls.add('carrier:both')
+        if not canonical_only and rnd.random() < 0.5:
+            ids.insert(rnd.randrange(len(ids) + 1), '')
+            must = False
+            cls.add('carrier:both_empty_id')
     return {'kind': 'range', 'cid': cid, 'ids': ids, 'delim': delim, 'must': must,
             'calls': calls, 'cls': sorted(cls)}
 
